@@ -35,6 +35,18 @@ type Req struct {
 	Code int    `json:"code"` // request method (0: GET)
 }
 
+func sameKeys(a, b map[string]time.Time) bool {
+	if len(a) != len(b) {
+		return false
+	}
+	for k := range a {
+		if _, ok := b[k]; !ok {
+			return false
+		}
+	}
+	return true
+}
+
 type Act struct {
 	A string `json:"a"`
 	G int    `json:"g"`
@@ -196,6 +208,7 @@ func runOne(st Stim) Trace {
 			time.Sleep(50 * time.Microsecond)
 		}
 	}
+	agedSec, agedKeys := 0, map[string]time.Time(nil)
 	for _, a := range st.Steps {
 		ev := Ev{Act: a}
 		switch a.A {
@@ -246,10 +259,27 @@ func runOne(st Stim) Trace {
 			}
 		case "lapse":
 			// the exchange lifetime of everything stored so far elapses; no sweep runs: the entries stay in the table, expired
+			// (directed histories: q > 0 = the rest of a lifetime of which an earlier "age" event has used up a part)
 			if before := len(u.CC.VerifState().RespCache); before > 0 {
-				u.CC.VerifAgeResponseCache(248 * time.Second)
+				d := 248 * time.Second
+				if a.Q > 0 && agedSec > 0 && agedSec+a.Q >= 248 && sameKeys(agedKeys, u.CC.VerifState().RespCache) {
+					// nothing was stored since the "age" event: q more seconds complete the lifetime of every entry
+					d = time.Duration(a.Q) * time.Second
+				}
+				agedSec, agedKeys = 0, nil
+				u.CC.VerifAgeResponseCache(d)
 				w.mu.Lock()
 				w.log = append(w.log, LogEv{E: "lapse", Q: before, Tok: []int{}, Pay: []int{}, Opts: []int{}})
+				w.mu.Unlock()
+				ev.Applied = true
+			}
+		case "age":
+			// q seconds - less than the exchange lifetime - pass; no sweep runs
+			if st := u.CC.VerifState().RespCache; len(st) > 0 && agedSec == 0 {
+				u.CC.VerifAgeResponseCache(time.Duration(a.Q) * time.Second)
+				agedSec, agedKeys = a.Q, st
+				w.mu.Lock()
+				w.log = append(w.log, LogEv{E: "age", Q: a.Q, Tok: []int{}, Pay: []int{}, Opts: []int{}})
 				w.mu.Unlock()
 				ev.Applied = true
 			}
